@@ -158,20 +158,25 @@ Proof.
   pose proof (boxdistinf3_pos _ _ Hout). lra.
 Qed.
 
+Lemma le_sqrt_sq a s : 0 <= a -> a * a <= s -> a <= sqrt s.
+Proof. intros Ha H. rewrite <- (sqrt_square a Ha). apply sqrt_le_1_alt. exact H. Qed.
+Lemma sqrt_le_sq a s : 0 <= a -> s <= a * a -> sqrt s <= a.
+Proof. intros Ha H. rewrite <- (sqrt_square a Ha). apply sqrt_le_1_alt. exact H. Qed.
+
 (* the Euclidean class is contained in the max-norm class *)
 Lemma boxdistinf2_le b p : boxdistinf2 b p <= boxdist2 b p.
 Proof.
   unfold boxdistinf2, boxdist2.
   set (ax := axd _ _ (vx p)). set (ay := axd _ _ (vy p)).
   assert (0 <= ax) by apply axd_nonneg. assert (0 <= ay) by apply axd_nonneg.
-  apply Rmax_lub; (rewrite <- (sqrt_square _ ltac:(eassumption)) at 1; apply sqrt_le_1_alt; nra).
+  apply Rmax_lub; (apply le_sqrt_sq; [assumption | nra]).
 Qed.
 Lemma boxdistinf3_le b p : boxdistinf3 b p <= boxdist3 b p.
 Proof.
   unfold boxdistinf3, boxdist3.
   set (ax := axd _ _ (wx p)). set (ay := axd _ _ (wy p)). set (az := axd _ _ (wz p)).
   assert (0 <= ax) by apply axd_nonneg. assert (0 <= ay) by apply axd_nonneg. assert (0 <= az) by apply axd_nonneg.
-  apply Rmax_lub; [apply Rmax_lub|]; (rewrite <- (sqrt_square _ ltac:(eassumption)) at 1; apply sqrt_le_1_alt; nra).
+  apply Rmax_lub; [apply Rmax_lub|]; (apply le_sqrt_sq; [assumption | nra]).
 Qed.
 Lemma lb2_lbinf2 o : lb2_2 o -> lbinf_2 o.
 Proof.
@@ -215,7 +220,7 @@ Qed.
 Lemma ball2_near r (p : RV2) : 0 <= r -> r < len2 p ->
   exists q, len2 q <= r /\ dist2 p q = len2 p - r.
 Proof.
-  intros Hr Hp. set (l := len2 p). assert (Hl : 0 < l) by (unfold l; lra).
+  intros Hr Hp. set (l := len2 p) in *. assert (Hl : 0 < l) by lra.
   exists (mkV2 (vx p * (r / l)) (vy p * (r / l))).
   pose proof (len2_sq p) as S. fold l in S.
   split.
@@ -236,7 +241,7 @@ Qed.
 Lemma ball3_near r (p : RV3) : 0 <= r -> r < len3 p ->
   exists q, len3 q <= r /\ dist3 p q = len3 p - r.
 Proof.
-  intros Hr Hp. set (l := len3 p). assert (Hl : 0 < l) by (unfold l; lra).
+  intros Hr Hp. set (l := len3 p) in *. assert (Hl : 0 < l) by lra.
   exists (mkV3 (wx p * (r / l)) (wy p * (r / l)) (wz p * (r / l))).
   pose proof (len3_sq p) as S. fold l in S.
   assert (E1 : forall k, wx p * k * (wx p * k) + wy p * k * (wy p * k) + wz p * k * (wz p * k) = l * l * (k * k))
@@ -256,8 +261,8 @@ Qed.
 
 Lemma circle_lb2 r o : @k_circle ROps r = Some o -> lb2_2 o.
 Proof.
-  unfold k_circle; cbn. intros H. kinv H. bfalse. cbn [bb2 ev2].
-  split; [unfold ordered2; cbn; lra|]. intros p. fold (len2 p).
+  unfold k_circle; cbn. intros H. kinv H. bfalse. unfold lb2_2; cbn [bb2 ev2].
+  split; [unfold ordered2; cbn; lra|]. intros p. change (sqrt (vx p * vx p + vy p * vy p)) with (len2 p).
   destruct (Rle_dec (len2 p) r) as [Hin|Hout].
   - right. pose proof (abs_le_len2_x p). pose proof (abs_le_len2_y p).
     assert (Ax : Rabs (vx p) <= r) by lra. assert (Ay : Rabs (vy p) <= r) by lra.
@@ -272,8 +277,8 @@ Proof. intros H. apply lb2_enc2, (circle_lb2 _ _ H). Qed.
 
 Lemma sphere_lb2 r o : @k_sphere ROps r = Some o -> lb2_3 o.
 Proof.
-  unfold k_sphere; cbn. intros H. kinv H. bfalse. cbn [bb3 ev3].
-  split; [unfold ordered3; cbn; lra|]. intros p. fold (len3 p).
+  unfold k_sphere; cbn. intros H. kinv H. bfalse. unfold lb2_3; cbn [bb3 ev3].
+  split; [unfold ordered3; cbn; lra|]. intros p. change (sqrt (wx p * wx p + wy p * wy p + wz p * wz p)) with (len3 p).
   destruct (Rle_dec (len3 p) r) as [Hin|Hout].
   - right. pose proof (abs_le_len3_x p). pose proof (abs_le_len3_y p). pose proof (abs_le_len3_z p).
     assert (Ax : Rabs (wx p) <= r) by lra. assert (Ay : Rabs (wy p) <= r) by lra.
@@ -288,3 +293,230 @@ Proof.
 Qed.
 Lemma sphere_enc r o : @k_sphere ROps r = Some o -> enc3 o.
 Proof. intros H. apply lb2_enc3, (sphere_lb2 _ _ H). Qed.
+
+(* ------------------------------------------------------------ the box fields *)
+Lemma le_sqrt2_l a b : a <= sqrt (a * a + b * b).
+Proof. destruct (Rle_dec 0 a); [apply le_sqrt_sq; nra | pose proof (sqrt_pos (a * a + b * b)); lra]. Qed.
+Lemma le_sqrt2_r a b : b <= sqrt (a * a + b * b).
+Proof. destruct (Rle_dec 0 b); [apply le_sqrt_sq; nra | pose proof (sqrt_pos (a * a + b * b)); lra]. Qed.
+Lemma le_sqrt3_1 a b c : a <= sqrt (a * a + b * b + c * c).
+Proof. destruct (Rle_dec 0 a); [apply le_sqrt_sq; nra | pose proof (sqrt_pos (a * a + b * b + c * c)); lra]. Qed.
+Lemma le_sqrt3_2 a b c : b <= sqrt (a * a + b * b + c * c).
+Proof. destruct (Rle_dec 0 b); [apply le_sqrt_sq; nra | pose proof (sqrt_pos (a * a + b * b + c * c)); lra]. Qed.
+Lemma le_sqrt3_3 a b c : c <= sqrt (a * a + b * b + c * c).
+Proof. destruct (Rle_dec 0 c); [apply le_sqrt_sq; nra | pose proof (sqrt_pos (a * a + b * b + c * c)); lra]. Qed.
+
+Lemma sdf_box2d_ge p s :
+  Rabs (vx p) - vx s <= @sdf_box2d ROps p s /\ Rabs (vy p) - vy s <= @sdf_box2d ROps p s.
+Proof.
+  unfold sdf_box2d; cbn. set (dx := Rabs (vx p) - vx s). set (dy := Rabs (vy p) - vy s).
+  replace (Rabs (vy p) - Rabs (vx p)) with (dy - dx + (vy s - vx s)) by (unfold dx, dy; ring).
+  pose proof (le_sqrt2_l dx dy). pose proof (le_sqrt2_r dx dy).
+  destruct (Rltb 0 dx) eqn:C1; destruct (Rltb 0 dy) eqn:C2; cbn [andb]; bfalse; try (split; lra);
+  rcmp1; lra.
+Qed.
+
+Lemma sdf_box3d_ge p s :
+  Rabs (wx p) - wx s <= @sdf_box3d ROps p s /\ Rabs (wy p) - wy s <= @sdf_box3d ROps p s /\
+  Rabs (wz p) - wz s <= @sdf_box3d ROps p s.
+Proof.
+  unfold sdf_box3d; cbn.
+  set (dx := Rabs (wx p) - wx s). set (dy := Rabs (wy p) - wy s). set (dz := Rabs (wz p) - wz s).
+  pose proof (le_sqrt3_1 dx dy dz). pose proof (le_sqrt3_2 dx dy dz). pose proof (le_sqrt3_3 dx dy dz).
+  pose proof (le_sqrt2_l dx dy). pose proof (le_sqrt2_r dx dy).
+  pose proof (le_sqrt2_l dx dz). pose proof (le_sqrt2_r dx dz).
+  pose proof (le_sqrt2_l dy dz). pose proof (le_sqrt2_r dy dz).
+  pose proof (Rmax_l (Rmax dx dy) dz). pose proof (Rmax_r (Rmax dx dy) dz).
+  pose proof (Rmax_l dx dy). pose proof (Rmax_r dx dy).
+  destruct (Rltb 0 dx) eqn:C1; destruct (Rltb 0 dy) eqn:C2; destruct (Rltb 0 dz) eqn:C3; cbn [andb]; bfalse;
+  repeat split; lra.
+Qed.
+
+(* ------------------------------------------------------------ Box2D, Line2D *)
+(* Go's Box2D and Line2D do not validate their parameters: the box is ordered only for size >= 0
+   (Box2D: any rounding, even one exceeding the half size) resp. l >= 0, round >= 0 (Line2D). *)
+Lemma box2_slab size round o : @k_box2 ROps size round = Some o -> forall p, slab2 (bb2 o) (ev2 o) p.
+Proof.
+  intros H. unfold k_box2 in H; cbn in H. injection H as <-.
+  intros p. unfold slab2; cbn.
+  destruct (sdf_box2d_ge p (v2subs (v2muls size (1 / (1 + 1))) round)) as [A B]. cbn in A, B.
+  pose proof (Rabs_ge_l (vx p)). pose proof (Rabs_ge_r (vx p)).
+  pose proof (Rabs_ge_l (vy p)). pose proof (Rabs_ge_r (vy p)). repeat split; lra.
+Qed.
+Lemma box2_lbinf size round o : 0 <= vx size -> 0 <= vy size ->
+  @k_box2 ROps size round = Some o -> lbinf_2 o.
+Proof.
+  intros Hx Hy H. apply slab_all_lbinf2; [|exact (box2_slab _ _ _ H)].
+  unfold k_box2 in H; cbn in H. injection H as <-. unfold ordered2; cbn. lra.
+Qed.
+Lemma box2_enc size round o : 0 <= vx size -> 0 <= vy size -> @k_box2 ROps size round = Some o -> enc2 o.
+Proof. intros Hx Hy H. apply lbinf2_enc, (box2_lbinf _ _ _ Hx Hy H). Qed.
+
+Lemma line2_lbinf l round o : 0 <= l -> 0 <= round ->
+  @k_line2 ROps l round = Some o -> lbinf_2 o.
+Proof.
+  intros Hl Hr H. unfold k_line2 in H; cbn in H. injection H as <-.
+  apply slab_all_lbinf2; [unfold ordered2; cbn; lra|].
+  intros p. unfold slab2; cbn.
+  pose proof (Rabs_ge_l (vx p)). pose proof (Rabs_ge_r (vx p)).
+  pose proof (Rabs_ge_l (vy p)). pose proof (Rabs_ge_r (vy p)). pose proof (Rabs_pos (vy p)).
+  rcmp1.
+  - repeat split; lra.
+  - replace (Rabs (vy p) - 0) with (Rabs (vy p)) by ring.
+    pose proof (le_sqrt2_l (Rabs (vx p) - l / (1 + 1)) (Rabs (vy p))).
+    pose proof (le_sqrt2_r (Rabs (vx p) - l / (1 + 1)) (Rabs (vy p))). repeat split; lra.
+Qed.
+Lemma line2_enc l round o : 0 <= l -> 0 <= round -> @k_line2 ROps l round = Some o -> enc2 o.
+Proof. intros Hl Hr H. apply lbinf2_enc, (line2_lbinf _ _ _ Hl Hr H). Qed.
+
+(* ------------------------------------------------------------ Box3D, Cylinder3D *)
+Lemma box3_lbinf size round o : @k_box3 ROps size round = Some o -> lbinf_3 o.
+Proof.
+  intros H. unfold k_box3, v3_lte_zero in H; cbn in H. kinv H. bfalse.
+  apply slab_all_lbinf3; [unfold ordered3; cbn; lra|].
+  intros p. unfold slab3; cbn.
+  destruct (sdf_box3d_ge p (v3subs (v3muls size (1 / (1 + 1))) round)) as (A & B & C). cbn in A, B, C.
+  pose proof (Rabs_ge_l (wx p)). pose proof (Rabs_ge_r (wx p)).
+  pose proof (Rabs_ge_l (wy p)). pose proof (Rabs_ge_r (wy p)).
+  pose proof (Rabs_ge_l (wz p)). pose proof (Rabs_ge_r (wz p)). repeat split; lra.
+Qed.
+Lemma box3_enc size round o : @k_box3 ROps size round = Some o -> enc3 o.
+Proof. intros H. apply lbinf3_enc, (box3_lbinf _ _ _ H). Qed.
+
+Lemma cylinder_lbinf h r round o : @k_cylinder ROps h r round = Some o -> lbinf_3 o.
+Proof.
+  intros H. unfold k_cylinder in H; cbn in H. kinv H. bfalse.
+  apply slab_all_lbinf3; [unfold ordered3; cbn; lra|].
+  intros p. unfold slab3; cbn.
+  set (rho := sqrt (wx p * wx p + wy p * wy p)).
+  destruct (sdf_box2d_ge (mkV2 rho (wz p)) (mkV2 (r - round) (h / (1 + 1) - round))) as [A B]. cbn in A, B.
+  assert (Hrho : 0 <= rho) by apply sqrt_pos. rewrite (Rabs_pos_eq rho Hrho) in A.
+  pose proof (abs_le_len2_x (mkV2 (wx p) (wy p))) as X. pose proof (abs_le_len2_y (mkV2 (wx p) (wy p))) as Y.
+  unfold len2 in X, Y; cbn in X, Y. fold rho in X, Y.
+  pose proof (Rabs_ge_l (wx p)). pose proof (Rabs_ge_r (wx p)).
+  pose proof (Rabs_ge_l (wy p)). pose proof (Rabs_ge_r (wy p)).
+  pose proof (Rabs_ge_l (wz p)). pose proof (Rabs_ge_r (wz p)). repeat split; lra.
+Qed.
+Lemma cylinder_enc h r round o : @k_cylinder ROps h r round = Some o -> enc3 o.
+Proof. intros H. apply lbinf3_enc, (cylinder_lbinf _ _ _ _ H). Qed.
+
+(* ------------------------------------------------------------ the three invariants as one
+   cls D o: the box is ordered and outside it the value is at least D(box, point).
+   D = 0 is enclosure (enc), D = boxdistinf the class lbinf, D = boxdist the class lb2. *)
+Definition cls2 (D : RBox2 -> RV2 -> R) (o : RObj2) : Prop :=
+  ordered2 (bb2 o) /\ forall p, D (bb2 o) p <= ev2 o p \/ in_box2 (bb2 o) p.
+Definition cls3 (D : RBox3 -> RV3 -> R) (o : RObj3) : Prop :=
+  ordered3 (bb3 o) /\ forall p, D (bb3 o) p <= ev3 o p \/ in_box3 (bb3 o) p.
+Definition D0_2 : RBox2 -> RV2 -> R := fun _ _ => 0.
+Definition D0_3 : RBox3 -> RV3 -> R := fun _ _ => 0.
+
+Lemma enc2_cls o : enc2 o <-> cls2 D0_2 o.
+Proof.
+  unfold enc2, cls2, D0_2. split; intros [Ho H]; (split; [exact Ho|]); intros p.
+  - destruct (Rle_dec 0 (ev2 o p)); [now left | right; apply H; lra].
+  - intros Hp. destruct (H p); [lra | assumption].
+Qed.
+Lemma enc3_cls o : enc3 o <-> cls3 D0_3 o.
+Proof.
+  unfold enc3, cls3, D0_3. split; intros [Ho H]; (split; [exact Ho|]); intros p.
+  - destruct (Rle_dec 0 (ev3 o p)); [now left | right; apply H; lra].
+  - intros Hp. destruct (H p); [lra | assumption].
+Qed.
+Lemma lbinf2_cls o : lbinf_2 o <-> cls2 boxdistinf2 o.
+Proof. reflexivity. Qed.
+Lemma lbinf3_cls o : lbinf_3 o <-> cls3 boxdistinf3 o.
+Proof. reflexivity. Qed.
+Lemma lb2_2_cls o : lb2_2 o <-> cls2 boxdist2 o.
+Proof. reflexivity. Qed.
+Lemma lb2_3_cls o : lb2_3 o <-> cls3 boxdist3 o.
+Proof. reflexivity. Qed.
+
+(* box inclusion *)
+Definition sub_box2 (a b : RBox2) : Prop :=
+  vx (b2min b) <= vx (b2min a) /\ vx (b2max a) <= vx (b2max b) /\
+  vy (b2min b) <= vy (b2min a) /\ vy (b2max a) <= vy (b2max b).
+Definition sub_box3 (a b : RBox3) : Prop :=
+  wx (b3min b) <= wx (b3min a) /\ wx (b3max a) <= wx (b3max b) /\
+  wy (b3min b) <= wy (b3min a) /\ wy (b3max a) <= wy (b3max b) /\
+  wz (b3min b) <= wz (b3min a) /\ wz (b3max a) <= wz (b3max b).
+Lemma sub_box2_in a b p : sub_box2 a b -> in_box2 a p -> in_box2 b p.
+Proof. unfold sub_box2, in_box2. intros; lra. Qed.
+Lemma sub_box3_in a b p : sub_box3 a b -> in_box3 a p -> in_box3 b p.
+Proof. unfold sub_box3, in_box3. intros; lra. Qed.
+Lemma sub_box2_refl a : sub_box2 a a.
+Proof. unfold sub_box2; lra. Qed.
+Lemma sub_box3_refl a : sub_box3 a a.
+Proof. unfold sub_box3; lra. Qed.
+Lemma sub_box2_trans a b c : sub_box2 a b -> sub_box2 b c -> sub_box2 a c.
+Proof. unfold sub_box2; intros; lra. Qed.
+Lemma sub_box3_trans a b c : sub_box3 a b -> sub_box3 b c -> sub_box3 a c.
+Proof. unfold sub_box3; intros; lra. Qed.
+Lemma sub_box2_ordered a b : ordered2 a -> sub_box2 a b -> ordered2 b.
+Proof. unfold sub_box2, ordered2; intros; lra. Qed.
+Lemma sub_box3_ordered a b : ordered3 a -> sub_box3 a b -> ordered3 b.
+Proof. unfold sub_box3, ordered3; intros; lra. Qed.
+
+Lemma axd_mono lo hi lo' hi' x : lo' <= lo -> hi <= hi' -> axd lo' hi' x <= axd lo hi x.
+Proof.
+  intros. pose proof (axd_nonneg lo hi x). pose proof (axd_ge_lo lo hi x). pose proof (axd_ge_hi lo hi x).
+  apply axd_le; lra.
+Qed.
+
+(* properties of a distance-to-box function used by the generic combinator lemmas *)
+Definition Dmono2 (D : RBox2 -> RV2 -> R) := forall a b p, sub_box2 a b -> D b p <= D a p.
+Definition Dmono3 (D : RBox3 -> RV3 -> R) := forall a b p, sub_box3 a b -> D b p <= D a p.
+Definition Dtrans2 (D : RBox2 -> RV2 -> R) :=
+  forall b v p, D (box2_translate b v) p = D b (mkV2 (vx p - vx v) (vy p - vy v)).
+Definition Dtrans3 (D : RBox3 -> RV3 -> R) :=
+  forall b v p, D (box3_translate b v) p = D b (mkV3 (wx p - wx v) (wy p - wy v) (wz p - wz v)).
+
+Lemma D0_mono2 : Dmono2 D0_2.
+Proof. unfold Dmono2, D0_2; intros; lra. Qed.
+Lemma D0_mono3 : Dmono3 D0_3.
+Proof. unfold Dmono3, D0_3; intros; lra. Qed.
+Lemma D0_trans2 : Dtrans2 D0_2.
+Proof. unfold Dtrans2, D0_2; intros; reflexivity. Qed.
+Lemma D0_trans3 : Dtrans3 D0_3.
+Proof. unfold Dtrans3, D0_3; intros; reflexivity. Qed.
+
+Lemma Rmax_mono a b c d : a <= c -> b <= d -> Rmax a b <= Rmax c d.
+Proof. intros. pose proof (Rmax_l c d). pose proof (Rmax_r c d). apply Rmax_lub; lra. Qed.
+Lemma Rmin_mono a b c d : a <= c -> b <= d -> Rmin a b <= Rmin c d.
+Proof. intros. pose proof (Rmin_l a b). pose proof (Rmin_r a b). apply Rmin_glb; lra. Qed.
+Lemma Dinf_mono2 : Dmono2 boxdistinf2.
+Proof.
+  intros a b p (A & B & C & D). unfold boxdistinf2.
+  apply Rmax_mono; apply axd_mono; assumption.
+Qed.
+Lemma Dinf_mono3 : Dmono3 boxdistinf3.
+Proof.
+  intros a b p (A & B & C & D & E & F). unfold boxdistinf3.
+  apply Rmax_mono; [apply Rmax_mono|]; apply axd_mono; assumption.
+Qed.
+Lemma D2_mono2 : Dmono2 boxdist2.
+Proof.
+  intros a b p (A & B & C & D). unfold boxdist2. apply sqrt_le_1_alt.
+  pose proof (axd_mono _ _ _ _ (vx p) A B). pose proof (axd_mono _ _ _ _ (vy p) C D).
+  pose proof (axd_nonneg (vx (b2min b)) (vx (b2max b)) (vx p)).
+  pose proof (axd_nonneg (vy (b2min b)) (vy (b2max b)) (vy p)). nra.
+Qed.
+Lemma D2_mono3 : Dmono3 boxdist3.
+Proof.
+  intros a b p (A & B & C & D & E & F). unfold boxdist3. apply sqrt_le_1_alt.
+  pose proof (axd_mono _ _ _ _ (wx p) A B). pose proof (axd_mono _ _ _ _ (wy p) C D).
+  pose proof (axd_mono _ _ _ _ (wz p) E F).
+  pose proof (axd_nonneg (wx (b3min b)) (wx (b3max b)) (wx p)).
+  pose proof (axd_nonneg (wy (b3min b)) (wy (b3max b)) (wy p)).
+  pose proof (axd_nonneg (wz (b3min b)) (wz (b3max b)) (wz p)). nra.
+Qed.
+
+Lemma axd_shift lo hi v x : axd (lo + v) (hi + v) x = axd lo hi (x - v).
+Proof. unfold axd. f_equal. f_equal; ring. Qed.
+Lemma Dinf_trans2 : Dtrans2 boxdistinf2.
+Proof. intros b v p. unfold boxdistinf2; cbn. rewrite !axd_shift. reflexivity. Qed.
+Lemma Dinf_trans3 : Dtrans3 boxdistinf3.
+Proof. intros b v p. unfold boxdistinf3; cbn. rewrite !axd_shift. reflexivity. Qed.
+Lemma D2_trans2 : Dtrans2 boxdist2.
+Proof. intros b v p. unfold boxdist2; cbn. rewrite !axd_shift. reflexivity. Qed.
+Lemma D2_trans3 : Dtrans3 boxdist3.
+Proof. intros b v p. unfold boxdist3; cbn. rewrite !axd_shift. reflexivity. Qed.
